@@ -12,6 +12,7 @@ import (
 	"io"
 	"slices"
 	"strings"
+	"testing/iotest"
 	"time"
 
 	"github.com/tink-crypto/tink-go/v2/aead"
@@ -33,6 +34,7 @@ import (
 	tinkpb "github.com/tink-crypto/tink-go/v2/proto/tink_go_proto"
 	"github.com/tink-crypto/tink-go/v2/signature"
 	"github.com/tink-crypto/tink-go/v2/streamingaead"
+	"github.com/tink-crypto/tink-go/v2/verifharness/internal/evid"
 	"github.com/tink-crypto/tink-go/v2/verifharness/internal/keys"
 	"github.com/tink-crypto/tink-go/v2/verifharness/internal/legacykm"
 )
@@ -399,7 +401,14 @@ var streamingAdapter = &adapter{
 			},
 			// acceptance = reading the whole stream yields the plaintext without error
 			accept: func(out []byte, in *input) error {
-				r, err := p.NewDecryptingReader(bytes.NewReader(out), in.ad)
+				// Half of the streams (decided by the last ciphertext byte, a tag byte) come from a source
+				// that hands out its last bytes together with io.EOF, as io.Reader allows.
+				var src io.Reader = bytes.NewReader(out)
+				if len(out) > 0 && out[len(out)-1]&1 == 1 {
+					src = iotest.DataErrReader(src)
+					evid.Add("streaming_source_eof_with_last_bytes", 1)
+				}
+				r, err := p.NewDecryptingReader(src, in.ad)
 				if err != nil {
 					return err
 				}
